@@ -68,6 +68,13 @@ def eval_generators(eng, generators, elt, st, want_elem=True):
             q.views.append(view)
             q.guard.append(z3.And(v >= 0, v < view.n))
             item = view.get(st.heap, v)
+            term = None
+            if isinstance(item.t, z3.ExprRef) and not z3.is_const(item.t):
+                term = item.t
+            elif isinstance(item.t, list) and item.t and isinstance(item.t[-1].t, z3.ExprRef) \
+                    and not z3.is_const(item.t[-1].t):
+                term = item.t[-1].t
+            q.__dict__.setdefault("item_terms", []).append(term)
             states = eng.assign(g.target, item, st)
             assert len(states) == 1
             for cond in g.ifs:
